@@ -168,7 +168,9 @@ def run(c, facts, tier):
         rereads = []
         pr.intercept[newkey] = lambda args: dict(state, __ty="SyntaxContext")
 
-        def parse_next(pr_, e, recv, args):
+        def parse_next(pr_, e, env_):
+            args = [pr_.ev(a_, env_) for a_ in e["args"]]
+            recv = pr_.ev(e["recv"], env_) if len(args) == 1 and args[0] is inp else None
             if len(args) == 1 and args[0] is inp:
                 r = None
                 if isinstance(recv, tuple) and recv and recv[0] == "fnref_path":
